@@ -8,10 +8,10 @@ from lib import pipeline
 
 LEVEL = "proof"
 MODEL_FILES = ["Model/View.v", "Model/AlgoIO.v", "Model/Traversal.v", "Model/AlgoBasic.v", "Model/ShortestM.v", "Model/MstM.v",
-               "Model/MatchM.v", "Model/CutM.v"]
+               "Model/MatchM.v", "Model/CutM.v", "Model/MiscM.v"]
 THEOREMS = []
 STREAMS = [("C07", 600, 20000), ("C08", 500, 20000), ("C09", 500, 20000), ("C10", 400, 20000), ("C11", 400, 20000),
-           ("C12", 400, 20000), ("C15", 400, 20000), ("C16", 400, 20000)]
+           ("C12", 400, 20000), ("C15", 400, 20000), ("C16", 400, 20000), ("C20", 600, 20000)]
 SHARD = 2000
 RELEASE_TOO = True
 RULE = ("stream C07: one abstract multigraph of 1..8 nodes per case (self-loops, parallel edges, 0..9 costs, both edge types), "
@@ -21,7 +21,7 @@ RULE = ("stream C07: one abstract multigraph of 1..8 nodes per case (self-loops,
         "is_cyclic_directed, is_cyclic_undirected, connected_components, tarjan_scc, toposort, kosaraju_scc, dijkstra, bellman_ford "
         "(f64), spfa, min_spanning_tree, greedy_matching, maximum_matching, dominators::simple_fast or is_bipartite_undirected + "
         "articulation_points; each answer is compared with the Coq model run on that encoding's dumped view and then across "
-        "encodings under the node correspondence. The other streams are the per-algorithm streams of C08..C12, C15, C16 with their "
+        "encodings under the node correspondence. The other streams are the per-algorithm streams of C08..C12, C15, C16, C20 with their "
         "own oracles (all encodings incl. vacancies). debug and release. distinct = sha1 of the case; non-trivial = at least four "
         "encodings and four edges")
 ASSUMPTIONS = [
@@ -30,7 +30,7 @@ ASSUMPTIONS = [
 ]
 SCOPE = "see Props/C07.v"
 
-SUB = {s: importlib.import_module("lib.props." + s.lower()) for s in ("C08", "C09", "C10", "C11", "C12", "C15", "C16")}
+SUB = {s: importlib.import_module("lib.props." + s.lower()) for s in ("C08", "C09", "C10", "C11", "C12", "C15", "C16", "C20")}
 INF = 2000000000
 I32MAX = 2147483647
 
